@@ -170,6 +170,10 @@ class RDGraphSpace :
         for edge in edges : 
             if type(edge) != RDGraphSpaceEdge :
                 raise TypeError("RDGraphSpace edges must be RDGraphSpaceEdge instances.")
+
+        for edge in edges :
+            if edge.i<0 or edge.i>=len(nodes) or edge.j<0 or edge.j>=len(nodes) :
+                raise ValueError("edge (" + str(edge.i) + "," + str(edge.j) + ") refers to a node index out of range.")
                 
         self._nodes = tuple(nodes)
         self._edges = tuple(edges)
